@@ -538,7 +538,13 @@ class SimpleFormula(
             variable
             for term in self.__terms
             for factor in term.factors
-            for variable in get_expression_variables(factor.expr, {})
+            for variable in (
+                # A looked-up name is its own variable, whether or not it is a
+                # valid Python expression (e.g. "`my column`").
+                [Variable(factor.expr, roles=["value"])]
+                if factor.eval_method.value == "lookup"
+                else get_expression_variables(factor.expr, {})
+            )
             if "value" in variable.roles
         ]
 
